@@ -170,6 +170,8 @@ pub fn generate_with(seed: u64, lite: bool) -> SPlan {
         3
     } else if long {
         1 + r.below(2)
+    } else if r.chance(1, 25) {
+        5 + r.below(4) // now and then a crowd
     } else {
         1 + r.below(4)
     };
